@@ -22,8 +22,8 @@ RULE = ('patterns: token strings of length 1-3 over {a,A,b,.,*,?,[ab],[!a],[} pl
         '/home/u/w2/[ab], /home/u/w/a?, ""} x name subsets (<=2 quick, <=3 thorough) of {a,A,ab,b,a*,[ab],a.b}, each name stored from '
         '/home/u/w, /home/u/w2 and /mnt/v1/p; non-trivial = at least one entry matched and at least one did not; distinct = (pattern shape, outcome)')
 TOKENS = ['a', 'A', 'b', '.', '*', '?', '[ab]', '[!a]', '[']
-FULL = ['/home/u/w/a', '/home/*/a', '/*', '/mnt/v1/*', '/home/u/w/?', '/home/u/w2/[ab]', '/home/u/w/a?', '']
-NAMES = ['a', 'A', 'ab', 'b', 'a*', '[ab]', 'a.b']
+FULL = ['/mnt/v?/p/a', '/mnt/[v]1/p/ab', '/mnt/v1/p/.a', '.a', '.?', '/home/u/w/a', '/home/*/a', '/*', '/mnt/v1/*', '/home/u/w/?', '/home/u/w2/[ab]', '/home/u/w/a?', '']
+NAMES = ['a', 'A', 'ab', 'b', 'a*', '[ab]', 'a.b', '.a']
 DIRS = [('/home/u/w', scen.HOME_TRASH, ''), ('/home/u/w2', scen.HOME_TRASH, '_1'), ('/mnt/v1/p', '/mnt/v1/.Trash-0', '')]
 
 
